@@ -473,7 +473,14 @@ impl History {
     // C20
 
     fn registry_case(&self, cx: &mut Cx, lang: &'static str, via_bridge: bool) {
-        let base = 1_000_000 + (cx.idx as usize) * 8 + if via_bridge { 4 } else { 0 };
+        // usually three ids; sometimes up to twenty; ids spaced so that they collide modulo small table sizes
+        let nids = if cx.rng.chance(1, 5) { cx.rng.range(4, 20) } else { 3 };
+        let stride = *cx.rng.pick(&[1usize, 1, 1, 16, 64, 256, 1 << 20]);
+        let first = (2 * (cx.idx as usize) + if via_bridge { 1 } else { 0 } + 40_000) * 32;
+        let idset: Vec<usize> = (0..nids).map(|k| (first + k) * stride).collect();
+        if nids > 3 {
+            cx.count("histories over 4-20 store ids");
+        }
         let lang: &'static str = if via_bridge { "none" } else { lang };
         let mut model: BTreeMap<usize, (St, Hits)> = BTreeMap::new();
         let mut hist: Vec<String> = vec![];
@@ -481,7 +488,7 @@ impl History {
         let nops = cx.rng.range(5, 30);
         let mut cross = false;
         for _ in 0..nops {
-            let id = base + cx.rng.below(3);
+            let id = *cx.rng.pick(&idset);
             let exists = model.contains_key(&id);
             let roll = if exists { 2 + cx.rng.below(10) } else { 0 };
             match roll {
@@ -511,7 +518,23 @@ impl History {
                     }
                 }
                 3 | 4 => {
-                    if exists {
+                    if exists && cx.rng.chance(1, 25) {
+                        // a burst of records: result buffers beyond the default capacity and beyond 40 hits
+                        let n = cx.rng.range(45, 120);
+                        hist.push(format!("add x{} 'metal <k>' to {}", n, id));
+                        cx.ctx(format!("C20 lang={} history={:?}", lang, hist));
+                        for k in 0..n {
+                            let t = format!("metal {}", k);
+                            let (rid, ra) = (2000 + k, k % 7);
+                            if via_bridge {
+                                bridge::add_record(id, rid, &t, ra);
+                            } else {
+                                add_record(id, rid, &t, ra);
+                            }
+                            model.get_mut(&id).unwrap().0.add(&(rid, t, ra));
+                        }
+                        cx.count("bursts of 45-120 records");
+                    } else if exists {
                         let t = format!("{} {}", cx.rng.pick(&words), cx.rng.pick(&words));
                         let rid = cx.rng.below(1000);
                         let ra = cx.rng.below(9);
@@ -527,7 +550,7 @@ impl History {
                 }
                 5 => {
                     if exists {
-                        let lim = *cx.rng.pick(&[0, 1, 2, 3, 4, 12, 40]);
+                        let lim = *cx.rng.pick(&[0, 1, 2, 3, 4, 12, 40, 41, 64, 100, 300]);
                         hist.push(format!("limit({},{})", id, lim));
                         cx.ctx(format!("C20 lang={} history={:?}", lang, hist));
                         if via_bridge {
@@ -642,7 +665,7 @@ impl Prop for History {
         match self.0 {
             Which::NoCrash => vec![("searches", 20000, 200000), ("searches with hits", 5000, 50000), ("joined-record hits (two spans from a one-word query)", 50, 500), ("non-ASCII queries", 2000, 20000), ("limit 0", 200, 2000), ("limit 65536", 200, 2000), ("long-text searches", 500, 5000), ("long-text searches with a query over 255 characters", 100, 1000), ("corpus-store searches", 300, 3000), ("soak searches on one store", 1000000, 4000000), ("most searches on one store max ", 66000, 66000)],
             Which::NoStale => vec![("search after add following an earlier search", 2000, 20000), ("search after clear following an earlier search", 500, 5000), ("search after limit following an earlier search", 500, 5000), ("empty-query search after a mutation following an earlier search", 1000, 10000), ("exhaustive histories", 20000, 200000), ("histories on a crowded store", 2000, 20000), ("histories that clear and refill a crowded store", 2000, 20000), ("soak searches on one store", 1000000, 4000000), ("search repeating the previous query after a mutation", 2000, 20000)],
-            Which::Registry => vec![("observations", 20000, 200000), ("observations with >= 2 live ids holding results", 2000, 20000), ("destroy", 300, 3000), ("searches", 3000, 30000)],
+            Which::Registry => vec![("observations", 20000, 200000), ("observations with >= 2 live ids holding results", 2000, 20000), ("destroy", 300, 3000), ("searches", 3000, 30000), ("histories over 4-20 store ids", 1000, 10000), ("bursts of 45-120 records", 300, 3000)],
         }
     }
     fn run(&self, cx: &mut Cx, stream: &str, idx: u64) {
